@@ -141,6 +141,28 @@ func C20(r *ev.Run) {
 				fail(t, "decoder-family", fmt.Sprintf("type %d decoded by family %s, want %s (error %q)", t, family, want, m.ErrorMessage), want, family)
 			}
 			r.Outcome("family=" + family)
+			// the same through the path users take: a message fresh from the handler is
+			// only ever displayed; that alone must attempt the full decoding
+			if m2, _ := handler.New(start, lvl).GetMessage(append([]byte{}, frame...)); m2 != nil {
+				cl2, site2, p2 := guard(func() { _ = m2.String() })
+				r.Count(0, 0, 1, 0)
+				fam2 := "none"
+				switch m2.Readable.(type) {
+				case *msm4.Message:
+					fam2 = "msm4"
+				case *msm7.Message:
+					fam2 = "msm7"
+				case *type1005.Message:
+					fam2 = "1005"
+				case *type1006.Message:
+					fam2 = "1006"
+				}
+				if p2 {
+					fail(t, "display-panic "+cl2+"@"+site2, "String() on a fresh message panics", nil, cl2)
+				} else if fam2 != want {
+					fail(t, "decoder-family-via-display", fmt.Sprintf("type %d displayed without Analyse: decoded by family %s, want %s (error %q)", t, fam2, want, m2.ErrorMessage), want, fam2)
+				}
+			}
 			var s string
 			cl, site, p = guard(func() { s = m.String() })
 			r.Count(0, 0, 1, 0)
